@@ -199,70 +199,115 @@ pub enum RefErr {
 }
 
 /// Independent walk: (display path, canonical real path) of every regular file reachable.
-fn walk(display: &str, real: &Path, ancestors: &mut Vec<PathBuf>, out: &mut Vec<(String, PathBuf)>, feat: &mut Features) -> Result<(), RefErr> {
+fn walk(display: &str, real: &Path, ancestors: &mut Vec<PathBuf>, out: &mut Vec<(String, PathBuf)>, feat: &mut Features, max_repeat: usize) -> Result<(), RefErr> {
     let md = std::fs::metadata(real).map_err(|_| RefErr::Dangling(display.to_string()))?;
     if md.is_file() {
         out.push((display.to_string(), std::fs::canonicalize(real).map_err(|_| RefErr::Dangling(display.to_string()))?));
     } else if md.is_dir() {
         let canon = std::fs::canonicalize(real).map_err(|_| RefErr::Dangling(display.to_string()))?;
-        if ancestors.contains(&canon) {
+        if ancestors.iter().filter(|a| **a == canon).count() >= max_repeat {
             feat.cycle = true;
-            return Ok(()); // a link back to a directory on the current descent path
+            return Ok(()); // back in a directory that is already on the current descent path
         }
         ancestors.push(canon);
         let mut names: Vec<String> = std::fs::read_dir(real).map_err(|_| RefErr::Dangling(display.to_string()))?.flatten().map(|e| e.file_name().to_str().unwrap().to_string()).collect();
         names.sort();
         for n in names {
-            walk(&join(display, &n), &real.join(&n), ancestors, out, feat)?;
+            walk(&join(display, &n), &real.join(&n), ancestors, out, feat, max_repeat)?;
         }
         ancestors.pop();
     }
     Ok(())
 }
 
-pub fn reference(cwd: &Path, args: &[String], lstrip: &Option<Vec<String>>, algs: &Algs, feat: &mut Features) -> Result<Artifacts, RefErr> {
+/// Reference outcome: `strict` = every regular file reachable without entering any directory twice
+/// on one descent path (these entries are required); `upper` = key -> digests of everything reachable
+/// when a directory may be entered up to twice on a descent path (entries beyond `strict` that a
+/// cycle-tolerating walk may legitimately add: the statement only says cycles are tolerated, not
+/// where exactly a cyclic descent stops).
+pub struct Reference {
+    pub strict: Result<Artifacts, RefErr>,
+    pub upper: BTreeMap<String, Vec<Digests>>,
+    pub upper_conflict: bool,
+}
+
+fn digests_of(canon: &Path, algs: &Algs) -> Option<Digests> {
+    let data = std::fs::read(canon).ok()?;
+    let mut d = Digests::new();
+    if matches!(algs, Algs::Default | Algs::Sha256 | Algs::Both) {
+        d.insert("sha256".into(), hex(&sha256(&data)));
+    }
+    if matches!(algs, Algs::Sha512 | Algs::Both) {
+        d.insert("sha512".into(), hex(&sha512(&data)));
+    }
+    Some(d)
+}
+
+fn strip_key(display: &str, lstrip: &Option<Vec<String>>, feat: &mut Features) -> String {
+    if let Some(ls) = lstrip {
+        let best = ls.iter().filter(|p| display.starts_with(p.as_str())).max_by_key(|p| p.len());
+        if let Some(p) = best {
+            if !p.is_empty() {
+                feat.strip_matched = true;
+            }
+            return display[p.len()..].to_string();
+        }
+    }
+    display.to_string()
+}
+
+pub fn reference(cwd: &Path, args: &[String], lstrip: &Option<Vec<String>>, algs: &Algs, feat: &mut Features) -> Reference {
     if *algs == Algs::Unknown {
-        return Err(RefErr::UnknownAlgorithm);
+        return Reference { strict: Err(RefErr::UnknownAlgorithm), upper: BTreeMap::new(), upper_conflict: false };
     }
-    let mut found: Vec<(String, PathBuf)> = vec![];
-    for a in args {
-        let c = clean(a);
-        let real = if c == "." { cwd.to_path_buf() } else { cwd.join(&c) };
-        walk(&c, &real, &mut vec![], &mut found, feat)?;
-    }
-    let mut byk: BTreeMap<String, PathBuf> = BTreeMap::new();
-    for (display, canon) in found {
-        let mut key = display.clone();
-        if let Some(ls) = lstrip {
-            let best = ls.iter().filter(|p| display.starts_with(p.as_str())).max_by_key(|p| p.len());
-            if let Some(p) = best {
-                key = display[p.len()..].to_string();
-                if !p.is_empty() {
-                    feat.strip_matched = true;
+    let collect = |max_repeat: usize, feat: &mut Features| -> Result<Vec<(String, PathBuf)>, RefErr> {
+        let mut found: Vec<(String, PathBuf)> = vec![];
+        for a in args {
+            let c = clean(a);
+            let real = if c == "." { cwd.to_path_buf() } else { cwd.join(&c) };
+            walk(&c, &real, &mut vec![], &mut found, feat, max_repeat)?;
+        }
+        Ok(found)
+    };
+    // strict
+    let strict = (|| {
+        let found = collect(1, feat)?;
+        let mut byk: BTreeMap<String, PathBuf> = BTreeMap::new();
+        for (display, canon) in found {
+            let key = strip_key(&display, lstrip, feat);
+            match byk.get(&key) {
+                Some(prev) if *prev != canon => return Err(RefErr::Duplicate(key)),
+                Some(_) => feat.overlapping = true,
+                None => {
+                    byk.insert(key, canon);
                 }
             }
         }
-        match byk.get(&key) {
-            Some(prev) if *prev != canon => return Err(RefErr::Duplicate(key)),
-            Some(_) => feat.overlapping = true,
-            None => {
-                byk.insert(key, canon);
+        let mut out = Artifacts::new();
+        for (key, canon) in byk {
+            let d = digests_of(&canon, algs).ok_or_else(|| RefErr::Dangling(key.clone()))?;
+            out.insert(key, d);
+        }
+        Ok(out)
+    })();
+    // upper bound
+    let mut upper: BTreeMap<String, Vec<Digests>> = BTreeMap::new();
+    let mut canons: BTreeMap<String, BTreeSet<PathBuf>> = BTreeMap::new();
+    let mut scratch = Features::default();
+    if let Ok(found) = collect(2, &mut scratch) {
+        for (display, canon) in found {
+            let key = strip_key(&display, lstrip, &mut scratch);
+            if let Some(d) = digests_of(&canon, algs) {
+                let e = upper.entry(key.clone()).or_default();
+                if !e.contains(&d) {
+                    e.push(d);
+                }
             }
+            canons.entry(key).or_default().insert(canon);
         }
     }
-    let mut out = Artifacts::new();
-    for (key, canon) in byk {
-        let data = std::fs::read(&canon).map_err(|_| RefErr::Dangling(key.clone()))?;
-        let mut d = Digests::new();
-        if matches!(algs, Algs::Default | Algs::Sha256 | Algs::Both) {
-            d.insert("sha256".into(), hex(&sha256(&data)));
-        }
-        if matches!(algs, Algs::Sha512 | Algs::Both) {
-            d.insert("sha512".into(), hex(&sha512(&data)));
-        }
-        out.insert(key, d);
-    }
-    Ok(out)
+    let upper_conflict = canons.values().any(|c| c.len() > 1);
+    Reference { strict, upper, upper_conflict }
 }
 
 fn arg_strings(spec: &Spec) -> Vec<String> {
@@ -366,8 +411,9 @@ impl Property for C18 {
          dangling), path argument lists (root, '.', './t', sub-directories, single files, overlapping, non-normalised 't/./sub//'), \
          strip-prefix lists (none, matching, overlapping prefixes of different length, non-matching, empty), hash algorithms {default, \
          sha256, sha512, both, unknown}; for in_toto_run an operation list (create, append, delete, echo to stdout/stderr, exit k) compiled to \
-         one sh -c command. Oracle: an independent walk (follows symlinks, prunes a link to a directory on the current descent path) with \
-         the harness' own SHA-256/512: Ok(map) must equal the reference map exactly; two different files under one key => Err; unknown \
+         one sh -c command. Oracle: an independent walk (follows symlinks) with the harness' own SHA-256/512: every file reachable without entering a directory \
+         twice on one descent path must be recorded with its true digest, and any further entry must be a cyclic duplicate (reachable when a \
+         directory may be entered twice) with a true digest - the statement does not say where a cyclic descent stops; two different files under one key => Err; unknown \
          algorithm => Err; in_toto_run: materials = reference snapshot before, products = snapshot after, byproducts = constructed \
          stdout/stderr/exit status. Non-trivial: the tree has a symlink, or a file > 1024 bytes, or arguments overlap, or a strip prefix \
          matched, or the command changed the tree; distinct by the whole case."
@@ -438,20 +484,30 @@ impl Property for C18 {
             return finish(o);
         }
         let before = reference(&case, &args, &lstrip, &spec.algs, &mut feat);
-        if let Err(RefErr::Dangling(_)) = before {
+        if let Err(RefErr::Dangling(_)) = before.strict {
             o.class("discarded:dangling");
             return finish(o);
         }
-        let compare = |what: &str, lib: Result<Artifacts, String>, reference: &Result<Artifacts, RefErr>, feat: &Features, o: &mut Outcome| match (lib, reference) {
+        let compare = |what: &str, lib: Result<Artifacts, String>, reference: &Reference, feat: &Features, o: &mut Outcome| match (lib, &reference.strict) {
             (Ok(got), Ok(want)) => {
-                if &got != want {
-                    let missing: Vec<&String> = want.keys().filter(|k| !got.contains_key(*k)).collect();
-                    let extra: Vec<&String> = got.keys().filter(|k| !want.contains_key(*k)).collect();
+                let missing: Vec<&String> = want.keys().filter(|k| !got.contains_key(*k)).collect();
+                let wrong: Vec<&String> = want.keys().filter(|k| got.get(*k).map(|d| d != &want[*k]).unwrap_or(false)).collect();
+                // entries beyond the required ones must be cyclic duplicates the upper bound knows, with a true digest
+                let extra: Vec<&String> = got.iter().filter(|(k, d)| !want.contains_key(*k) && !reference.upper.get(*k).map(|ds| ds.contains(d)).unwrap_or(false)).map(|(k, _)| k).collect();
+                if !missing.is_empty() || !wrong.is_empty() || !extra.is_empty() {
                     let kind = if !missing.is_empty() { "missing-entry" } else if !extra.is_empty() { "extra-entry" } else { "wrong-digest" };
-                    o.fail(format!("C18/{}/{}/{}", what, kind, cause(feat)), format!("missing {:?}, extra {:?}; got {:?}", missing, extra, got), format!("{:?}", want));
+                    o.fail(format!("C18/{}/{}/{}", what, kind, cause(feat)), format!("missing {:?}, wrong digest {:?}, unexplained extra {:?}; got {:?}", missing, wrong, extra, got), format!("{:?}", want));
+                } else if got.len() > want.len() {
+                    o.class("cyclic-duplicates-recorded");
                 }
             }
-            (Err(e), Ok(want)) => o.fail(format!("C18/{}/error-on-recordable-tree/{}", what, cause(feat)), format!("Err({})", e), format!("Ok with {} entries {:?}", want.len(), want.keys().collect::<Vec<_>>())),
+            (Err(e), Ok(want)) => {
+                if reference.upper_conflict {
+                    o.class("error-on-cyclic-duplicate-conflict");
+                } else {
+                    o.fail(format!("C18/{}/error-on-recordable-tree/{}", what, cause(feat)), format!("Err({})", e), format!("Ok with {} entries {:?}", want.len(), want.keys().collect::<Vec<_>>()))
+                }
+            }
             (Ok(got), Err(RefErr::Duplicate(k))) => o.fail(format!("C18/{}/duplicate-key-not-reported", what), format!("Ok({:?})", got.keys().collect::<Vec<_>>()), format!("Err: two different files map to key {:?}", k)),
             (Ok(_), Err(RefErr::UnknownAlgorithm)) => o.fail(format!("C18/{}/unknown-algorithm-accepted", what), "Ok", "Err"),
             (Err(_), Err(_)) => {}
@@ -467,7 +523,7 @@ impl Property for C18 {
                         return finish(o);
                     }
                 };
-                o.class(match (&lib, &before) {
+                o.class(match (&lib, &before.strict) {
                     (Ok(_), _) => "lib:ok",
                     (Err(_), _) => "lib:err",
                 });
@@ -479,7 +535,7 @@ impl Property for C18 {
                 let cmd_refs: Vec<&str> = cmd.iter().map(|s| s.as_str()).collect();
                 let lib = guarded(|| in_toto_run("stepname", if plan.run_dir_dot { Some(".") } else { None }, &arg_refs, &arg_refs, &cmd_refs, None, alg_list.as_deref(), ls_refs.as_deref()));
                 let after = reference(&case, &args, &lstrip, &spec.algs, &mut feat);
-                let changed = matches!((&before, &after), (Ok(a), Ok(b)) if a != b);
+                let changed = matches!((&before.strict, &after.strict), (Ok(a), Ok(b)) if a != b);
                 if changed {
                     o.class("run-changed-tree");
                 }
@@ -487,9 +543,9 @@ impl Property for C18 {
                     Err(pi) => o.fail(format!("C18/run/panic/{}", pi.message_class()), format!("{}:{} {}", pi.file, pi.line, pi.message), "a link or an error"),
                     Ok(Err(e)) => {
                         o.class("lib:err");
-                        if let (Ok(b), Ok(a)) = (&before, &after) {
+                        if let (Ok(b), Ok(a)) = (&before.strict, &after.strict) {
                             // arguments may vanish through the command; only demand success when they still exist
-                            if args.iter().all(|x| std::fs::metadata(case.join(clean(x))).is_ok()) {
+                            if args.iter().all(|x| std::fs::metadata(case.join(clean(x))).is_ok()) && !before.upper_conflict && !after.upper_conflict {
                                 o.fail(format!("C18/run/error-on-recordable-tree/{}", cause(&feat)), format!("Err({})", e), format!("a link with {} materials and {} products", b.len(), a.len()));
                             }
                         }
@@ -498,7 +554,7 @@ impl Property for C18 {
                         o.class("lib:ok");
                         if let in_toto::models::MetadataWrapper::Link(l) = &block.metadata {
                             compare("run-materials", Ok(artifacts_from_lib(&l.materials)), &before, &feat, &mut o);
-                            if !matches!(after, Err(RefErr::Dangling(_))) {
+                            if !matches!(after.strict, Err(RefErr::Dangling(_))) {
                                 compare("run-products", Ok(artifacts_from_lib(&l.products)), &after, &feat, &mut o);
                             }
                             let bp = ByprodSpec::from_lib(&l.byproducts);
@@ -527,7 +583,7 @@ impl Property for C18 {
             o.nontrivial(format!("{:?}", spec));
         }
         for (name, on) in [("symlink:relative", feat.rel_symlink), ("symlink:absolute", feat.abs_symlink), ("symlink:to-symlink", feat.symlink_to_symlink), ("symlink:to-dir", feat.symlink_to_dir),
-            ("cycle", feat.cycle), ("big-file", feat.big_file), ("overlapping-args", feat.overlapping), ("strip-matched", feat.strip_matched), ("reference:duplicate", matches!(before, Err(RefErr::Duplicate(_))))] {
+            ("cycle", feat.cycle), ("big-file", feat.big_file), ("overlapping-args", feat.overlapping), ("strip-matched", feat.strip_matched), ("reference:duplicate", matches!(before.strict, Err(RefErr::Duplicate(_))))] {
             if on {
                 o.class(name);
             }
